@@ -237,6 +237,9 @@ func checkC01(c *Ctx, w *World) {
 		c.check(okKey, "C01.args", "unbind key", p.ipos(s.Instr), "key is the request key extracted at pick time (or empty)", "unbound key is not the request's key: "+originStrings(origins(s.Call.Args[1])))
 	}
 
+	// "configured" is stated over the method table: every configured method must be in it, with its own entry's section
+	importPremises(c, w, "C17", checkC17, []string{"C17.methods"}, "C01.config")
+
 	// ---- C01.extract (Pick)
 	pAtoms := []atomDef{
 		boolAtom("configured", lookupOK("gcpBalancer.methodCfg")),
